@@ -61,7 +61,15 @@ pub fn run_exps(run: &mut Run, oracle: OracleFnPtr, exps: Vec<Exp>, lim_tweak: i
             }
         };
         let oracle_c = move |m: &EngModel, w: &mut World, s: &EngSt, a: &Act, o: &mut StepOut| {
-            oracle(m, w, s, a, o)
+            let ns = oracle(m, w, s, a, o)?;
+            // a state in which engine and vAMM no longer mirror each other is reported by C02 at the
+            // step that caused it and is not expanded by any check
+            w.restore(&ns.snap);
+            if mirror_broken(w) {
+                o.tag("pruned:engine-and-vamm-out-of-step");
+                return None;
+            }
+            Some(ns)
         };
         let setup_c;
         let setup: Option<&(dyn Fn(&mut World) + Sync)> = match e.setup {
@@ -207,12 +215,12 @@ fn cfg_liq(cw20: bool, fees: bool, plr: u128) -> Cfg {
 
 /// A pairwise covering array over the configuration dimensions {collateral, fees, partial ratio
 /// 0/25%/100%, margin band (10%/6.25% vs 5%/5%), liquidation fee zero/non-zero, fluctuation limit
-/// 0/5%, insurance fund rich/poor}: every pair of values of two dimensions occurs in some row
+/// 0/5%, insurance fund rich/poor, vAMM naming the engine's insurance fund or another address}: every pair of values of two dimensions occurs in some row
 /// (greedy construction over the 192-row product, deterministic).
 pub fn covering_configs() -> Vec<Cfg> {
-    let dims: [usize; 7] = [2, 2, 3, 2, 2, 2, 2];
-    let mut all: Vec<[usize; 7]> = vec![];
-    let mut idx = [0usize; 7];
+    let dims: [usize; 8] = [2, 2, 3, 2, 2, 2, 2, 2];
+    let mut all: Vec<[usize; 8]> = vec![];
+    let mut idx = [0usize; 8];
     loop {
         all.push(idx);
         let mut i = 0;
@@ -223,17 +231,17 @@ pub fn covering_configs() -> Vec<Cfg> {
             }
             idx[i] = 0;
             i += 1;
-            if i == 7 {
+            if i == 8 {
                 break;
             }
         }
-        if i == 7 {
+        if i == 8 {
             break;
         }
     }
     let mut uncovered: std::collections::BTreeSet<(usize, usize, usize, usize)> = Default::default();
-    for a in 0..7 {
-        for b in (a + 1)..7 {
+    for a in 0..8 {
+        for b in (a + 1)..8 {
             for x in 0..dims[a] {
                 for y in 0..dims[b] {
                     uncovered.insert((a, x, b, y));
@@ -247,8 +255,8 @@ pub fn covering_configs() -> Vec<Cfg> {
             .iter()
             .max_by_key(|r| {
                 let mut n = 0;
-                for a in 0..7 {
-                    for b in (a + 1)..7 {
+                for a in 0..8 {
+                    for b in (a + 1)..8 {
                         if uncovered.contains(&(a, r[a], b, r[b])) {
                             n += 1;
                         }
@@ -258,8 +266,8 @@ pub fn covering_configs() -> Vec<Cfg> {
             })
             .unwrap()
             .clone();
-        for a in 0..7 {
-            for b in (a + 1)..7 {
+        for a in 0..8 {
+            for b in (a + 1)..8 {
                 uncovered.remove(&(a, best[a], b, best[b]));
             }
         }
@@ -280,8 +288,9 @@ pub fn covering_configs() -> Vec<Cfg> {
                 ..Cfg::default()
             };
             if r[6] == 1 {
-                c.if_funds = 2 * D;
+                c.if_funds = 50_000;
             }
+            c.vamm_if_other = r[7] == 1;
             c
         })
         .collect()
@@ -295,7 +304,11 @@ pub fn push_sweep(exps: &mut Vec<Exp>, depth: usize) {
     al.rel_prices = vec![(1, 1)];
     al.prices = vec![8 * D];
     al.blocks = vec![15, 3900];
-    let alpha = al.acts();
+    let mut alpha = al.acts();
+    // configuration updates the contracts must reject (if one is accepted, what follows is checked too)
+    alpha.push(Act::EngConfig { by: "owner".into(), imr: None, mmr: None, plr: Some(D + 50_000), lf: None });
+    alpha.push(Act::EngConfig { by: "owner".into(), imr: None, mmr: None, plr: None, lf: Some(D + 50_000) });
+    alpha.push(Act::EngConfig { by: "owner".into(), imr: Some(10_000), mmr: Some(900_000), plr: None, lf: None });
     let seeds = vec![
         vec![],
         seed_liquidatable(),
@@ -305,6 +318,7 @@ pub fn push_sweep(exps: &mut Vec<Exp>, depth: usize) {
         seed_funded(),
         seed_band_liquidatable(),
         seed_vault_drained(),
+        seed_funding_exceeds_margin(),
     ];
     for c in covering_configs() {
         let mut e = Exp::new("configuration sweep", c, alpha.clone(), seeds.clone(), depth);
@@ -450,9 +464,13 @@ fn setup_c10(w: &mut World) {
     if let Some(t) = w.token.clone() {
         let eng = w.engine.to_string();
         assert!(w.exec("alice", &t, &cw20::Cw20ExecuteMsg::Transfer { recipient: "ice".into(), amount: cosmwasm_std::Uint128::new(100 * D) }, 0).ok);
-        assert!(w.exec("ice", &t, &cw20::Cw20ExecuteMsg::IncreaseAllowance { spender: eng, amount: cosmwasm_std::Uint128::new(u128::MAX / 4), expires: None }, 0).ok);
+        assert!(w.exec("ice", &t, &cw20::Cw20ExecuteMsg::IncreaseAllowance { spender: eng.clone(), amount: cosmwasm_std::Uint128::new(u128::MAX / 4), expires: None }, 0).ok);
+        // an account whose name differs from a trader's only by a trailing zero
+        assert!(w.exec("alice", &t, &cw20::Cw20ExecuteMsg::Transfer { recipient: "bob0".into(), amount: cosmwasm_std::Uint128::new(500 * D) }, 0).ok);
+        assert!(w.exec("bob0", &t, &cw20::Cw20ExecuteMsg::IncreaseAllowance { spender: eng, amount: cosmwasm_std::Uint128::new(u128::MAX / 4), expires: None }, 0).ok);
     } else {
         w.app.send_tokens(cosmwasm_std::Addr::unchecked("alice"), cosmwasm_std::Addr::unchecked("ice"), &[cosmwasm_std::Coin::new(100 * D, DENOM)]).unwrap();
+        w.app.send_tokens(cosmwasm_std::Addr::unchecked("alice"), cosmwasm_std::Addr::unchecked("bob0"), &[cosmwasm_std::Coin::new(500 * D, DENOM)]).unwrap();
     }
 }
 
@@ -465,6 +483,13 @@ fn alpha_c10(w: &mut World, _s: &EngSt) -> Vec<Act> {
     al.blocks = vec![15, 3900];
     al.liquidators = vec!["liq", "bob"];
     let mut acts = al.acts();
+    // a trader whose name is another trader's plus a trailing zero
+    for v in 0..w.vamms.len() {
+        for buy in [true, false] {
+            acts.push(Act::Open { t: "bob0".into(), v, buy, margin: SIZE_M.0, lev: SIZE_M.1, limit: 0 });
+        }
+        acts.push(Act::Close { t: "bob0".into(), v, limit: 0 });
+    }
     // crafted deposit: vamm string = vamm address + "al", sender "ice"
     for v in 0..w.vamms.len() {
         acts.push(Act::DepRaw { by: "ice".into(), vamm: format!("{}al", w.vamms[v]), amt: 7 * D });
@@ -558,7 +583,7 @@ pub fn run_c04(tier: Tier) -> i32 {
     run.rule = "every sequence over the alphabet up to the depth bound from each seed (incl. two fundings of opposite sign, vault drained); non-trivial = a ClosePosition that succeeded, or a trader transaction that lowered the insurance fund".into();
     run.nontrivial = vec!["c04:whole-close-ok".into(), "c04:partial-close-ok".into(), "c04:trader-tx-lowering-insurance-fund".into(), "c04:close-rejected-negative-equity".into()];
     let alpha = StdAlpha::basic(&T2).acts();
-    let seeds = vec![vec![], seed_liquidatable(), seed_two_fundings(), seed_vault_drained()];
+    let seeds = vec![vec![], seed_liquidatable(), seed_two_fundings(), seed_vault_drained(), seed_funding_exceeds_margin()];
     let mut exps = vec![];
     match tier {
         Tier::Quick => {
@@ -758,6 +783,8 @@ fn liq_seeds() -> Vec<Vec<Act>> {
 fn alpha_c06(w: &mut World, s: &EngSt) -> Vec<Act> {
     w.restore(&s.snap);
     let mut acts = liq_alpha(true);
+    acts.push(Act::EngConfig { by: "owner".into(), imr: None, mmr: None, plr: Some(D + 50_000), lf: None });
+    acts.push(Act::EngConfig { by: "owner".into(), imr: None, mmr: None, plr: None, lf: Some(D + 50_000) });
     let mmr = w.cfg.mmr as i128;
     let vo = observe(w, &[]).vamms.remove(0);
     for t in T2 {
@@ -1029,7 +1056,7 @@ pub fn run_c11(tier: Tier) -> i32 {
     al.blocks = vec![15, 1740, 1860, 3599, 3600, 3660];
     al.liquidators = vec![];
     let alpha = al.acts();
-    let seeds = vec![vec![], seed_funded(), seed_two_fundings(), seed_vault_drained()];
+    let seeds = vec![vec![], seed_funded(), seed_two_fundings(), seed_vault_drained(), seed_funding_exceeds_margin()];
     let mut exps = vec![];
     match tier {
         Tier::Quick => {
@@ -1099,36 +1126,40 @@ fn step_c16(m: &EngModel, w: &mut World, s: &EngSt, a: &Act, out: &mut StepOut) 
     let mut mon = s.mon.clone();
     let h = so.pre.height;
     if mon["h"].as_u64() != Some(h) {
-        mon = json!({"h": h, "u": [], "lq": false, "lt": []});
+        mon = json!({"h": h, "u": [], "lq": [], "lt": []});
     }
-    let in_list = |v: &Value, t: &str| v.as_array().map(|a| a.iter().any(|x| x.as_str() == Some(t))).unwrap_or(false);
+    // entries are "<vamm index>/<trader>"; lq lists the vAMM indices with a liquidation in this block
+    let in_list = |v: &Value, k: &str| v.as_array().map(|a| a.iter().any(|x| x.as_str() == Some(k))).unwrap_or(false);
+    let list = |v: &Value| -> Vec<String> { v.as_array().map(|a| a.iter().filter_map(|x| x.as_str().map(|s| s.to_string())).collect()).unwrap_or_default() };
     match a {
         Act::Open { t, v, .. } | Act::Close { t, v, .. } => {
-            let restricted = in_list(&mon["u"], t) && mon["lq"].as_bool() == Some(true) && so.pre_t(*v, t).pos.is_some();
+            let k = format!("{}/{}", v, t);
+            let lq_here = in_list(&mon["lq"], &v.to_string());
+            let restricted = in_list(&mon["u"], &k) && lq_here && so.pre_t(*v, t).pos.is_some();
             let cls = err_class(&so.outcome.err);
             if restricted {
                 out.tag("c16:restricted-attempts");
                 if so.outcome.ok || !so.store_unchanged() {
                     out.viol(
                         format!("C16:second-action-after-liquidation-accepted:{}", a.kind()),
-                        format!("{:?} succeeded in block {} although {} already acted in it and a liquidation happened", a, h, t),
+                        format!("{:?} succeeded in block {} although {} already acted on that vAMM in it and a liquidation happened there (monitor {})", a, h, t, mon),
                     );
                 }
-            } else if !in_list(&mon["u"], t) && !in_list(&mon["lt"], t) {
+            } else if !in_list(&mon["u"], &k) && !in_list(&mon["lt"], &k) {
                 out.tag("c16:unrestricted-attempts");
                 if !so.outcome.ok && cls == "restriction-mode" {
                     out.viol(
                         format!("C16:untouched-trader-restricted:{}", a.kind()),
-                        format!("{:?} rejected with the restriction error in block {} although {} had not acted in it (monitor {})", a, h, t, mon),
+                        format!("{:?} rejected with the restriction error in block {} although {} had not acted on that vAMM in it (monitor {})", a, h, t, mon),
                     );
                 }
             }
             if so.outcome.ok {
                 let has = so.post_t(*v, t).pos.is_some();
-                let mut u: Vec<String> = mon["u"].as_array().unwrap().iter().filter_map(|x| x.as_str().map(|s| s.to_string())).collect();
-                u.retain(|x| x != t);
+                let mut u = list(&mon["u"]);
+                u.retain(|x| x != &k);
                 if has {
-                    u.push(t.clone());
+                    u.push(k);
                 }
                 u.sort();
                 mon["u"] = json!(u);
@@ -1137,22 +1168,28 @@ fn step_c16(m: &EngModel, w: &mut World, s: &EngSt, a: &Act, out: &mut StepOut) 
         Act::Liq { t, v, .. } => {
             if so.outcome.ok {
                 out.tag("c16:liquidations");
-                mon["lq"] = json!(true);
-                let mut lt: Vec<String> = mon["lt"].as_array().unwrap().iter().filter_map(|x| x.as_str().map(|s| s.to_string())).collect();
-                if !lt.contains(t) {
-                    lt.push(t.clone());
+                let k = format!("{}/{}", v, t);
+                let mut lq = list(&mon["lq"]);
+                if !lq.contains(&v.to_string()) {
+                    lq.push(v.to_string());
+                    lq.sort();
+                }
+                mon["lq"] = json!(lq);
+                let mut lt = list(&mon["lt"]);
+                if !lt.contains(&k) {
+                    lt.push(k.clone());
                     lt.sort();
                 }
                 mon["lt"] = json!(lt);
                 if so.post_t(*v, t).pos.is_none() {
-                    let mut u: Vec<String> = mon["u"].as_array().unwrap().iter().filter_map(|x| x.as_str().map(|s| s.to_string())).collect();
-                    u.retain(|x| x != t);
+                    let mut u = list(&mon["u"]);
+                    u.retain(|x| x != &k);
                     mon["u"] = json!(u);
                 }
             }
         }
         Act::Blk { .. } => {
-            mon = json!({"h": so.post.height, "u": [], "lq": false, "lt": []});
+            mon = json!({"h": so.post.height, "u": [], "lq": [], "lt": []});
         }
         _ => {}
     }
@@ -1171,7 +1208,7 @@ pub fn run_c16(tier: Tier) -> i32 {
     al.prices = vec![];
     al.blocks = vec![15];
     let alpha = al.acts();
-    let init = json!({"h": 0, "u": [], "lq": false, "lt": []});
+    let init = json!({"h": 0, "u": [], "lq": [], "lt": []});
     let seeds = vec![with_funding_due(seed_liquidatable()), with_funding_due(seed_liquidatable_mirror()), seed_same_block_cascade(), vec![
         Act::open("alice", true, 25 * D, 10 * D),
         Act::open("carol", true, 25 * D, 10 * D),
@@ -1195,6 +1232,34 @@ pub fn run_c16(tier: Tier) -> i32 {
             push(0, 6);
             push(250_000, 6);
         }
+    }
+    // two vAMMs: liquidatable positions on both, trades and liquidations interleaved across them
+    {
+        let mut c = cfg_liq(true, false, 250_000);
+        c.n_vamms = 2;
+        let mut acts = vec![];
+        for v in 0..2 {
+            for t in ["alice", "carol"] {
+                acts.push(Act::Open { t: t.into(), v, buy: true, margin: SIZE_M.0, lev: SIZE_M.1, limit: 0 });
+                acts.push(Act::Close { t: t.into(), v, limit: 0 });
+            }
+            for t in ["alice", "bob"] {
+                acts.push(Act::Liq { by: "liq".into(), t: t.into(), v, limit: 0 });
+            }
+        }
+        acts.push(Act::blk(15));
+        let seed2 = vec![
+            Act::Open { t: "alice".into(), v: 0, buy: true, margin: 25 * D, lev: 10 * D, limit: 0 },
+            Act::Open { t: "bob".into(), v: 1, buy: true, margin: 25 * D, lev: 10 * D, limit: 0 },
+            Act::blk(15),
+            Act::Open { t: "bob".into(), v: 0, buy: false, margin: 50 * D, lev: 1 * D, limit: 0 },
+            Act::Open { t: "alice".into(), v: 1, buy: false, margin: 50 * D, lev: 1 * D, limit: 0 },
+            Act::blk(1200),
+            Act::PxRel { v: 0, num: 1, den: 1 },
+        ];
+        let mut e = Exp::new("restriction mode, two vAMMs", c, acts, vec![seed2], tier.pick(4, 5));
+        e.init_mon = init.clone();
+        exps.push(e);
     }
     push_sweep(&mut exps, tier.pick(2, 3));
     run_exps(&mut run, step_c16, exps, |_| {});
